@@ -35,6 +35,9 @@ pub enum After {
     /// before the idle period the peer sends a request that V's application holds; after the idle
     /// period the application answers it (a late answer over a session that has timed out)
     VAnswersLate,
+    /// while the session idles, undecryptable packets in the peer's name keep arriving from its address
+    /// at intervals shorter than the timeout; more than 1.3 x timeout after the last genuine use V submits
+    VSubmitsAfterKnocks,
 }
 
 #[derive(Clone, Copy, Debug, PartialEq, Eq, Hash, Serialize, Deserialize)]
@@ -56,6 +59,10 @@ pub struct Case {
     pub capacity: u8,
     pub short_timeout: bool,
     pub ops: Vec<COp>,
+    /// bit i-1: peer i sends from another socket than its record advertises (NAT). Such peers only ever
+    /// contact V (V's own handshakes to them fail the record check by design)
+    #[serde(default)]
+    pub nat: u8,
 }
 
 pub struct C15;
@@ -111,7 +118,7 @@ async fn run(case: &Case, rep: &mut CaseReport) -> Option<(String, String)> {
         nodes_packets: 1,
         seqs: vec![1; 8],
         foreign_enr_answer: vec![],
-        nat_peers: vec![],
+        nat_peers: (1..=6u8).filter(|i| case.nat & (1 << (i - 1)) != 0).collect(),
         nat_kind: 0,
         dual_records: false,
         v_session_timeout_ms: if case.short_timeout { Some(SHORT_TIMEOUT_MS) } else { None },
@@ -140,7 +147,11 @@ async fn run(case: &Case, rep: &mut CaseReport) -> Option<(String, String)> {
         match *op {
             COp::ExchangeOut(p) | COp::ExchangeIn(p) => {
                 let p = 1 + (p as usize % n_peers as usize);
-                let (from, to) = if matches!(op, COp::ExchangeOut(_)) { (0u8, p as u8) } else { (p as u8, 0u8) };
+                let is_nat = case.nat & (1 << (p - 1)) != 0;
+                if is_nat {
+                    rep.class("exchange-with-a-peer-behind-nat(record advertises another socket)");
+                }
+                let (from, to) = if matches!(op, COp::ExchangeOut(_)) && !is_nat { (0u8, p as u8) } else { (p as u8, 0u8) };
                 let op_start = Instant::now();
                 let ev_start = w.events.len();
                 if cut_at.contains_key(&p) {
@@ -245,6 +256,9 @@ async fn run(case: &Case, rep: &mut CaseReport) -> Option<(String, String)> {
                     continue;
                 }
                 let p = 1 + (p as usize % n_peers as usize);
+                if case.nat & (1 << (p - 1)) != 0 && matches!(then, After::VSubmits | After::VSubmitsThenStale | After::VSubmitsHandshakeLost | After::VSubmitsAfterKnocks) {
+                    continue;
+                }
                 let mut held_for_later = Vec::new();
                 if then == After::VAnswersLate {
                     // the peer's request is delivered to V's application, which does not answer yet
@@ -267,8 +281,25 @@ async fn run(case: &Case, rep: &mut CaseReport) -> Option<(String, String)> {
                     limbo.insert(p);
                 }
                 let need = Duration::from_millis(SHORT_TIMEOUT_MS * 13 / 10 + 5);
+                let mut last_knock = Instant::now();
+                let mut knocks = 0u32;
                 while t0.elapsed() <= need {
                     std::thread::sleep(Duration::from_millis(5));
+                    if then == After::VSubmitsAfterKnocks && last_knock.elapsed() >= Duration::from_millis(SHORT_TIMEOUT_MS / 3) {
+                        last_knock = Instant::now();
+                        knocks += 1;
+                        // an undecryptable message in p's name from p's address; what V answers (a WHOAREYOU) is lost
+                        act(&mut w, &Op::GuessedKeyMessage { peer: (p - 1) as u8, to: 0, key: (knocks % 3) as u8, body: ForgedBody::Ping });
+                        w.settle().await;
+                        w.step += 1;
+                        w.pool.clear();
+                    }
+                }
+                if knocks > 0 {
+                    rep.class("undecryptable-packets-from-the-peer's-address-during-the-idle-period");
+                    // V's challenge(s) to p run out (virtual time) before V submits
+                    crate::engines::wire_interp::advance(&mut w, Duration::from_millis(REQUEST_TIMEOUT_MS * 5 / 2)).await;
+                    w.pool.clear();
                 }
                 rep.class("measured-idle>1.3x-timeout");
                 rep.nontrivial = true;
@@ -291,7 +322,7 @@ async fn run(case: &Case, rep: &mut CaseReport) -> Option<(String, String)> {
                     v
                 };
                 match then {
-                    After::VSubmits | After::VSubmitsThenStale | After::VSubmitsHandshakeLost => {
+                    After::VSubmits | After::VSubmitsThenStale | After::VSubmitsHandshakeLost | After::VSubmitsAfterKnocks => {
                         act(&mut w, &Op::Submit { from: 0, to: p as u8, body: Body::Ping, with_record: true });
                         w.settle().await;
                         w.step += 1;
@@ -458,7 +489,7 @@ impl Property for C15 {
         tier.pick(1_200, 12_000)
     }
     fn strategy(_tier: Tier) -> BoxedStrategy<Case> {
-        let after = || prop_oneof![3 => Just(After::VSubmits), 3 => Just(After::PeerSubmits), 2 => Just(After::VSubmitsThenStale), 2 => Just(After::PeerSubmitsThenStale), 2 => Just(After::VSubmitsHandshakeLost), 2 => Just(After::VAnswersLate)];
+        let after = || prop_oneof![3 => Just(After::VSubmits), 3 => Just(After::PeerSubmits), 2 => Just(After::VSubmitsThenStale), 2 => Just(After::PeerSubmitsThenStale), 2 => Just(After::VSubmitsHandshakeLost), 2 => Just(After::VAnswersLate), 2 => Just(After::VSubmitsAfterKnocks)];
         let op = || {
             prop_oneof![
                 5 => (0u8..6).prop_map(COp::ExchangeOut),
@@ -467,12 +498,13 @@ impl Property for C15 {
                 1 => (30u8..100).prop_map(COp::Nap),
             ]
         };
-        let free = (2u8..=6, 1u8..=5, any::<bool>(), proptest::collection::vec(op(), 2..16))
-            .prop_map(|(n_peers, capacity, short_timeout, ops)| Case { n_peers, capacity, short_timeout, ops });
+        let nat = || prop_oneof![3 => Just(0u8), 1 => any::<u8>()];
+        let free = (2u8..=6, 1u8..=5, any::<bool>(), proptest::collection::vec(op(), 2..16), nat())
+            .prop_map(|(n_peers, capacity, short_timeout, ops, nat)| Case { n_peers, capacity, short_timeout, ops, nat });
         // the cache is filled to its capacity, one of its sessions times out and is re-established,
         // then peers that have no session yet arrive: who is dropped to make room?
-        let pressure = (1u8..=4, proptest::collection::vec(any::<bool>(), 8), 0u8..4, prop_oneof![1 => Just(After::VSubmits), 1 => Just(After::PeerSubmits), 2 => Just(After::VSubmitsHandshakeLost)], 1u8..=2, proptest::collection::vec(op(), 0..5))
-            .prop_map(|(cap, dirs, which, then, newcomers, tail)| {
+        let pressure = (1u8..=4, proptest::collection::vec(any::<bool>(), 8), 0u8..4, prop_oneof![1 => Just(After::VSubmits), 1 => Just(After::PeerSubmits), 2 => Just(After::VSubmitsHandshakeLost)], 1u8..=2, proptest::collection::vec(op(), 0..5), nat())
+            .prop_map(|(cap, dirs, which, then, newcomers, tail, nat)| {
                 let n_peers = (cap + newcomers).min(6);
                 let ex = |i: u8, out: bool| if out { COp::ExchangeOut(i) } else { COp::ExchangeIn(i) };
                 // op argument a addresses peer 1 + a % n_peers
@@ -482,12 +514,12 @@ impl Property for C15 {
                     ops.push(ex(cap + j, dirs[(4 + j) as usize]));
                 }
                 ops.extend(tail);
-                Case { n_peers, capacity: cap, short_timeout: true, ops }
+                Case { n_peers, capacity: cap, short_timeout: true, ops, nat }
             });
         // expiry and capacity together: the cache is filled, the oldest session ages beyond the time-out
         // while the others are refreshed in between, then newcomers arrive (the purge removes the
         // expired session, the next newcomer needs room)
-        let aging = (2u8..=4, proptest::collection::vec(any::<bool>(), 12), 60u8..85, 1u8..=2, proptest::collection::vec(op(), 0..4)).prop_map(|(cap, dirs, nap, newcomers, tail)| {
+        let aging = (2u8..=4, proptest::collection::vec(any::<bool>(), 12), 60u8..85, 1u8..=2, proptest::collection::vec(op(), 0..4), nat()).prop_map(|(cap, dirs, nap, newcomers, tail, nat)| {
             let n_peers = (cap + 2).min(6);
             let ex = |i: u8, out: bool| if out { COp::ExchangeOut(i) } else { COp::ExchangeIn(i) };
             let mut ops: Vec<COp> = (0..cap).map(|i| ex(i, dirs[i as usize])).collect();
@@ -500,7 +532,7 @@ impl Property for C15 {
                 ops.push(ex(cap + j, dirs[(8 + j) as usize]));
             }
             ops.extend(tail);
-            Case { n_peers, capacity: cap, short_timeout: true, ops }
+            Case { n_peers, capacity: cap, short_timeout: true, ops, nat }
         });
         prop_oneof![6 => free, 2 => pressure, 1 => aging].boxed()
     }
@@ -516,7 +548,7 @@ impl Property for C15 {
         rep
     }
     fn rule() -> String {
-        "V (real handler, virtual wire) with session_cache_capacity 1..5 and session_timeout in {120 ms real, 1 day}, 2..6 honest peers; ops: complete exchanges in either direction (establish / refresh sessions) and, in the 120 ms regime, at most two real idle periods per case that last until the harness has MEASURED more than 1.3 x timeout since the end of the last op that touched that session, followed by V submitting a request to the idle peer, the idle peer sending V a request under its (unexpired) session, or V's application answering a request of that peer it has been holding since before the idle period. X1: the datagram V then emits does not decrypt under any key V held before the idle period, and a message under the old session is not delivered before a new handshake; X2: V's probe snapshot never lists more sessions than the capacity; X3 (1-day regime): a session disappears only when a new one is established at full capacity, exactly one, and it belongs to the peer least recently used according to the harness ledger. Short naps (10..100 ms) let some sessions age while others are refreshed; by-construction scenarios: capacity pressure after a re-established session, and the oldest session aging out while the others are refreshed before newcomers arrive. Non-trivial = a measured long idle followed by traffic, or a session established at full capacity.".into()
+        "V (real handler, virtual wire) with session_cache_capacity 1..5 and session_timeout in {120 ms real, 1 day}, 2..6 honest peers; ops: complete exchanges in either direction (establish / refresh sessions) and, in the 120 ms regime, at most two real idle periods per case that last until the harness has MEASURED more than 1.3 x timeout since the end of the last op that touched that session, followed by V submitting a request to the idle peer, the idle peer sending V a request under its (unexpired) session, or V's application answering a request of that peer it has been holding since before the idle period, or V submitting after undecryptable packets in the peer's name kept arriving from its address every 40 ms during the idle period. In a quarter of the cases some peers are behind NAT (their record advertises another socket; they only ever contact V). X1: the datagram V then emits does not decrypt under any key V held before the idle period, and a message under the old session is not delivered before a new handshake; X2: V's probe snapshot never lists more sessions than the capacity; X3 (1-day regime): a session disappears only when a new one is established at full capacity, exactly one, and it belongs to the peer least recently used according to the harness ledger. Short naps (10..100 ms) let some sessions age while others are refreshed; by-construction scenarios: capacity pressure after a re-established session, and the oldest session aging out while the others are refreshed before newcomers arrive. Non-trivial = a measured long idle followed by traffic, or a session established at full capacity.".into()
     }
     fn assumptions() -> Vec<String> {
         vec![
